@@ -34,7 +34,8 @@ var pureExternal = map[string]bool{
 func runC19(c *core.Ctx) {
 	c.Rule("R19.1", "Reset, Hash, Bucket and their callees in the repository have no effects beyond their arguments and receiver: only allow-listed pure library calls, no mutable package-level state, no channel operations, goroutines, time or randomness", 3)
 	c.Rule("R19.2", "ring points derive from the node label and the replica counter only (never from the node's position in the listing), and the comparator given to sort.Sort consults the node as well as the point, so equal points of different nodes are ordered independently of listing order", 2)
-	c.Rule("R19.3", "every node selection in the cluster handler is Continuum.Hash(key of the command); the node list is not indexed otherwise outside construction and Close", 2)
+	c.Rule("R19.3", "every node selection in the cluster handler is Continuum.Hash(key of the command) - the whole key; the node list is not indexed otherwise outside construction and Close", 2)
+	c.Rule("R19.5", "the node selected by hashing a key serves the request for that same key: every backend call made through the selected node carries the very key (or the command) that was hashed", 2)
 
 	pkg := c.P.Pkg(relCluster)
 	if pkg == nil {
@@ -325,8 +326,15 @@ func runC19(c *core.Ctx) {
 				good := ssax.All(srcs, func(s ssax.Src) bool {
 					return s.Kind == "param" && paramIndex(s.V.(*ssa.Parameter)) == 1 && (s.PathIs("Key") || s.PathIs("Keys", "[]"))
 				})
-				c.Check(good, "R19.3", key, c.P.Pos(ins.Pos()), "node selected by Hash("+strings.Join(ssax.Strings(srcs), ",")+")",
-					"node selected by hashing "+strings.Join(ssax.Strings(srcs), ",")+" instead of the command's key: set and get of one key may reach different nodes")
+				partial := ""
+				for _, d := range ssax.Defs(cc.Args[1]) {
+					if sl, ok := ssax.Unwrap(d).(*ssa.Slice); ok && (sl.Low != nil || sl.High != nil) {
+						partial = "; only a part of the key is hashed (" + c.P.Pos(sl.Pos()) + "): commands that hash the whole key reach another node"
+					}
+				}
+				c.Check(good && partial == "", "R19.3", key, c.P.Pos(ins.Pos()), "node selected by Hash("+strings.Join(ssax.Strings(srcs), ",")+")",
+					"node selected by hashing "+strings.Join(ssax.Strings(srcs), ",")+" instead of the command's key: set and get of one key may reach different nodes"+partial)
+				checkSelectionServesKey(c, pv, fn, ins.(ssa.Value), cc.Args[1], ordinalKey(counts, core.FuncName(fn)+"#served-key"))
 			}
 			// direct indexing of the node list
 			if ia, ok := ins.(*ssa.IndexAddr); ok {
@@ -354,4 +362,87 @@ func baseOfLoad(v ssa.Value) ssa.Value {
 		return u.X
 	}
 	return v
+}
+
+// checkSelectionServesKey (R19.5): follow the node returned by the ring lookup through projections (type assertion,
+// field selections, loads) to the calls made through it; a []byte argument of such a call must be the hashed key
+// itself, a command argument must be the command whose Key was hashed.
+func checkSelectionServesKey(c *core.Ctx, pv *ssax.Prov, fn *ssa.Function, sel ssa.Value, hashed ssa.Value, key string) {
+	var calls []*ssa.CallCommon
+	var callIns []ssa.Instruction
+	derived := map[ssa.Value]bool{sel: true}
+	seen := map[ssa.Value]bool{}
+	var walk func(v ssa.Value)
+	walk = func(v ssa.Value) {
+		if seen[v] || v.Referrers() == nil {
+			return
+		}
+		seen[v] = true
+		for _, r := range *v.Referrers() {
+			switch x := r.(type) {
+			case *ssa.TypeAssert, *ssa.Field, *ssa.FieldAddr, *ssa.Extract, *ssa.ChangeType, *ssa.MakeInterface, *ssa.Phi:
+				derived[x.(ssa.Value)] = true
+				walk(x.(ssa.Value))
+			case *ssa.UnOp:
+				if x.Op == token.MUL {
+					derived[x] = true
+					walk(x)
+				}
+			case *ssa.Store:
+				// spilled into a local: follow the cell
+				if x.Val == v {
+					if al, ok := x.Addr.(*ssa.Alloc); ok {
+						derived[al] = true
+						walk(al)
+					}
+				}
+			default:
+				if cc := ssax.CallOf(r); cc != nil {
+					calls = append(calls, cc)
+					callIns = append(callIns, r)
+				}
+			}
+		}
+	}
+	walk(sel)
+	hashedSrc := pv.Sources(hashed)
+	var bad []string
+	n := 0
+	for i, cc := range calls {
+		args := cc.Args
+		for _, a := range args {
+			if derived[a] {
+				continue
+			}
+			t := types.TypeString(a.Type(), nil)
+			switch {
+			case t == "[]byte":
+				n++
+				if ssax.Unwrap(a) != ssax.Unwrap(hashed) {
+					bad = append(bad, fmt.Sprintf("%s at %s is given the key %s, the node was selected for %s", short(ssax.CalleeName(cc)), c.P.Pos(callIns[i].Pos()),
+						strings.Join(ssax.Strings(pv.Sources(a)), ","), strings.Join(ssax.Strings(hashedSrc), ",")))
+				}
+			case strings.HasPrefix(t, pCommon+".") && strings.HasSuffix(t, "Request"):
+				n++
+				var cmdSrc []ssax.Src
+				for _, s := range pv.Sources(a) {
+					if s.Kind != "composite" {
+						cmdSrc = append(cmdSrc, s)
+					}
+				}
+				ok := len(cmdSrc) == 1 && cmdSrc[0].Kind == "param" && len(cmdSrc[0].Path) == 0 && ssax.All(hashedSrc, func(s ssax.Src) bool {
+					return s.Kind == "param" && s.V == cmdSrc[0].V && s.PathIs("Key")
+				})
+				if !ok {
+					bad = append(bad, fmt.Sprintf("%s at %s is given a command (%s) other than the one whose key was hashed (%s)", short(ssax.CalleeName(cc)), c.P.Pos(callIns[i].Pos()),
+						strings.Join(ssax.Strings(cmdSrc), ","), strings.Join(ssax.Strings(hashedSrc), ",")))
+				}
+			}
+		}
+	}
+	if n == 0 {
+		c.Info("R19.5", key, c.P.Pos(sel.Pos()), "the selected node is not used for a keyed backend call in this function")
+		return
+	}
+	c.Check(len(bad) == 0, "R19.5", key, c.P.Pos(sel.Pos()), fmt.Sprintf("%d keyed calls through the selected node carry the hashed key", n), strings.Join(bad, "; "))
 }
